@@ -223,6 +223,21 @@ def _run_structural(ctx):
     report_witness(r5, f"{wk.module.relpath}::{wk.qual}::value", wk.where, cached_witness(ctx, "workers-cmd", workers_command_witness),
                    "`gwf workers -n 1|2|7` start the pool with exactly that many cores; non-integers are refused by click",
                    select=lambda d: "cores" in d or "core count" in d or "ends with" in d)
+    # the pool has ONE semaphore for its lifetime: it is created with the scheduler and never replaced (a task that holds a core of the old one releases into
+    # whichever object the field holds then - a "repaired" pool has more slots than cores)
+    from .localpool import removals_from
+    from ..index import loc as _loc
+    semattr = info["sem"]
+    n_re = 0
+    for m_ in info["cls"].methods.values():
+        is_init = m_.name in ("__init__", "__attrs_post_init__") or any((d_ or "").endswith(".default") for d_ in m_.decorator_names())
+        for node_, attr_, how_ in removals_from(m_.node, {semattr}):
+            if how_ == "rebinding" and not is_init:
+                n_re += 1
+                r5.violation(f"{m_.module.relpath}::{m_.qual}::replaces-{semattr}", f"Scheduler.{m_.name} replaces self.{semattr} while the pool runs: a task that obtained a core from "
+                             "the old semaphore gives it back to the new one, which then counts one slot more than there are cores (and tasks waiting on the old one wait forever)",
+                             _loc(node_, m_.module))
+    r5.ok(f"{info['cls'].module.relpath}::Scheduler.{semattr}::created-once", f"self.{semattr} is bound at construction only ({n_re} later rebindings)", info["cls"].where)
 
 
 def run(ctx):
